@@ -84,6 +84,16 @@ func c05R1(p *core.Program, r *core.Report, pl *pipeline) {
 		if v == nil {
 			return f, e, ""
 		}
+		// the binding of a type switch clause stands for the switch operand
+		if id, isID := e.(*ast.Ident); isID {
+			for _, x := range typeFactsAt(f, id) {
+				if x.Binding == v && x.Binding != nil {
+					if _, isClause := x.Scope.(*ast.CaseClause); isClause {
+						return origin(f, x.Operand, depth+1)
+					}
+				}
+			}
+		}
 		if isParamOf(f.Root(), v) {
 			root := f.Root()
 			idx := paramIndex(root, v)
@@ -191,8 +201,27 @@ func c05R1(p *core.Program, r *core.Report, pl *pipeline) {
 		// allowed: X of a type assertion to GeneratorNewer; argument chain ValueOf -> (Indirect) -> .Type()
 		k := len(stack) - 2
 		if ta, ok := stack[k].(*ast.TypeAssertExpr); ok && ta.X == ast.Expr(id) {
-			if core.NamedTypeName(ninfo.TypeOf(ta.Type)) == core.G("pkg/gengo.GeneratorNewer") {
+			if ta.Type != nil && core.NamedTypeName(ninfo.TypeOf(ta.Type)) == core.G("pkg/gengo.GeneratorNewer") {
 				return true
+			}
+			// the operand of a type switch whose only clauses test for GeneratorNewer (or are the default)
+			if ta.Type == nil {
+				onlyNewer := false
+				for j := k - 1; j >= 0 && j >= k-3; j-- {
+					if ts, isTS := stack[j].(*ast.TypeSwitchStmt); isTS {
+						onlyNewer = true
+						for _, c := range ts.Body.List {
+							for _, e := range c.(*ast.CaseClause).List {
+								if core.NamedTypeName(ninfo.TypeOf(e)) != core.G("pkg/gengo.GeneratorNewer") {
+									onlyNewer = false
+								}
+							}
+						}
+					}
+				}
+				if onlyNewer {
+					return true
+				}
 			}
 		}
 		okChain := false
@@ -451,11 +480,31 @@ func c05R3(p *core.Program, r *core.Report, pl *pipeline) {
 		case "ctx.callbacks":
 			return root.Name == "(*"+ctxTypeName(p)+").Defer"
 		case "ctx.ignore":
-			for _, d := range pl.dispatchers {
-				if d == root {
-					return true
+			// the dispatchers, or a private helper that only they call (their shared error-handling tail)
+			var fromDispatchers func(f *core.Func, depth int) bool
+			fromDispatchers = func(f *core.Func, depth int) bool {
+				for _, d := range pl.dispatchers {
+					if d == f {
+						return true
+					}
 				}
+				obj := f.Obj()
+				if depth > 2 || obj == nil || obj.Exported() || len(funcValueUses(p, obj)) > 0 {
+					return false
+				}
+				sites := 0
+				for _, cs := range allCalls(p) {
+					if cs.In.Body == nil || core.CalleeFunc(cs.In.Info(), cs.Call) != obj {
+						continue
+					}
+					sites++
+					if !fromDispatchers(cs.In.Root(), depth+1) {
+						return false
+					}
+				}
+				return sites > 0
 			}
+			return fromDispatchers(root, 0)
 		case "ctx.sumFile":
 			return pl.execute.Has(root)
 		}
